@@ -159,7 +159,10 @@ static void op_setcb(long h, jwt_builder_t *b)
 	}
 	memset(s, 0, sizeof(*s));
 	s->n = (int)vh_below(&rng, 5);
-	s->ret = vh_below(&rng, 8) == 0;
+	{	/* non-zero return values of every width */
+		static const int RV[] = { 1, -1, 2, 255, 256, -256, 512, 65536, -65536, 16777216, INT32_MIN, INT32_MAX, 128, -128, 0x7fffff00, 0x40000000 };
+		s->ret = vh_below(&rng, 8) == 0 ? RV[vh_below(&rng, 16)] : 0;
+	}
 	s->pick_pub = vh_below(&rng, 10) == 0;
 	s->pick_key = (!s->pick_pub && vh_below(&rng, 4) == 0) ? 1 + (int)vh_below(&rng, NK) : 0;
 	printf("[\"B\",%ld,{\"ret\":%d,\"pick_pub\":%d,\"pick_key\":%d,\"pick_alg\":%d,\"ops\":[", h, s->ret, s->pick_pub, s->pick_key, s->pick_key ? KALG[s->pick_key - 1] : 0);
